@@ -1286,6 +1286,20 @@ class Analyzer:
                     del new.diffs[p]
         return new
 
+    def divisor_of(self, t):
+        """operand compared with 0 by the condition of a DivisionByZero/RemainderByZero assert"""
+        l = op_local(t["cond"])
+        if l is None:
+            return None
+        ds = self.body.defs_of(l)
+        if len(ds) == 1 and ds[0][1] != "term" and ds[0][2]["k"] == "bin" and ds[0][2]["op"] == "Eq":
+            rv = ds[0][2]
+            if rv["b"]["k"] == "const" and rv["b"]["c"].get("int") == "0":
+                return rv["a"]
+            if rv["a"]["k"] == "const" and rv["a"]["c"].get("int") == "0":
+                return rv["b"]
+        return None
+
     # ---- terminators --------------------------------------------------------------------------------------------
     def transfer_term(self, st, t, bb):
         k = t["k"]
@@ -1322,9 +1336,12 @@ class Analyzer:
                 if ti is not None and tl is not None:
                     s2.assume_le(ti, tl, True)
             elif m["kind"] in ("DivisionByZero", "RemainderByZero"):
-                ta = s2.term(self.eval_op(s2, m["a"], "dz:%d" % bb))
-                if ta is not None:
-                    s2.assume_ne(ta, ("c", 0))
+                # NOTE: the assert message carries the dividend; the divisor is the operand compared with 0 in the condition
+                dv = self.divisor_of(t)
+                if dv is not None:
+                    ta = s2.term(self.eval_op(s2, dv, "dz:%d" % bb))
+                    if ta is not None:
+                        s2.assume_ne(ta, ("c", 0))
             if s2.dead:
                 return []
             return [(t["t"], s2)]
